@@ -24,6 +24,29 @@ Definition name_from_type (r : registry) (t cls_name : N) : option (N * registry
   | None => match type_of_name r cls_name with Some _ => None | None => Some (cls_name, r ++ [(cls_name, t)]) end
   end.
 Definition reg_inj (r : registry) : Prop := NoDup (map fst r) /\ NoDup (map snd r).
+(* register_variable_name(name, typ, overwrite): VariableTypeCache[name] = typ (a dict: an existing name keeps its place) *)
+Fixpoint reg_set (r : registry) (nm t : N) : registry :=
+  match r with [] => [(nm, t)] | (n, t') :: q => if N.eqb n nm then (n, t) :: q else (n, t') :: reg_set q nm t end.
+Definition reg_register (r : registry) (nm t : N) (overwrite : bool) : option registry :=
+  match type_of_name r nm with
+  | Some _ => if overwrite then Some (reg_set r nm t) else None
+  | None => Some (r ++ [(nm, t)])
+  end.
+(* histories of registry operations and what each returns (OErr = ValueError) *)
+Inductive regop := ROReg (nm t : N) (ow : bool) | RONameOf (t cls : N) (allow : bool) | ROTypeOf (nm : N).
+Inductive regobs := OErr | OOk | OName (n : N) | OType (t : N).
+Definition reg_step (r : registry) (o : regop) : regobs * registry :=
+  match o with
+  | ROReg nm t ow => match reg_register r nm t ow with Some r' => (OOk, r') | None => (OErr, r) end
+  | RONameOf t cls allow =>
+      if allow then match name_from_type r t cls with Some (n, r') => (OName n, r') | None => (OErr, r) end
+      else match name_of_type r t with Some n => (OName n, r) | None => (OErr, r) end
+  | ROTypeOf nm => match type_of_name r nm with Some t => (OType t, r) | None => (OErr, r) end
+  end.
+Definition regobs_beq (a b : regobs) : bool :=
+  match a, b with OErr, OErr | OOk, OOk => true | OName x, OName y | OType x, OType y => N.eqb x y | _, _ => false end.
+Fixpoint reg_run (r : registry) (h : list (regop * regobs)) : bool :=
+  match h with [] => true | (o, e) :: q => let '(g, r') := reg_step r o in regobs_beq g e && reg_run r' q end.
 
 (* ---------------- flat variable trees ---------------- *)
 Definition fmap (A : Type) := list (path * A).
